@@ -70,7 +70,10 @@ def cases(draw, tier, user_passes=False):
         types = draw(st.sampled_from([ONLY_NEG, ONLY_BUF, ONLY_NEG, ONLY_BUF, UNARY_HEAVY]))
     else:
         types = draw(st.sampled_from([UNARY_HEAVY, UNARY_HEAVY, list(gen.ALL_TYPES), ONLY_NEG, ONLY_BUF]))
-    nl = draw(gen.netlists(min_inputs=0, max_inputs=7 if big else 5, max_gates=40 if big else 22, types=types,
+    # (now and then 7-9 inputs: tables of more than 64 rows)
+    many_inputs = draw(st.integers(0, 7)) == 0
+    nl = draw(gen.netlists(min_inputs=7 if many_inputs else 0, max_inputs=(9 if big else 8) if many_inputs else (7 if big else 5),
+                           max_gates=40 if big else 22, types=types,
                            max_arity=4, styles=('plain', 'digits', 'mixed'), max_outputs=5,
                            dup_rate=draw(st.sampled_from([0, 2, 4])), const_operands=(0, 0, 2),
                            sinks_as_outputs=draw(st.booleans())))
